@@ -51,4 +51,5 @@ Definition wf_case (c : case) : bool :=
   | CCtor _ k d _ => (len d =? spec_raw_len k) && is_bytes d
   | CEnc a t o _ => wf_addr a && wf_tbl t && enc_guard a o
   | CParse s t _ _ => is_str s && wf_tbl t
+  | CConv a _ _ => wf_addr a
   end.
